@@ -34,6 +34,49 @@ def run(chk):
             sc.compare_with_model(chk, sims)
             sims = []
     sc.compare_with_model(chk, sims)
+    # slow hand-shakes with keepalive and idle times configured: timers must not run (and nothing but the
+    # contact header and SESS_INIT may be written) before the session exists; later traffic with timers firing
+    sims = []
+    for i in range(12 if tier == 'quick' else 200):
+        cfg_a = sc.gen_cfg(rng, timers=True)
+        cfg_b = sc.gen_cfg(rng, timers=True)
+        cfg_a['keepalive'] = rng.choice([1, 2, 3])
+        cfg_b['keepalive'] = rng.choice([1, 2, 3, 30])
+        sim = sc.ts.Sim(cfg_a, cfg_b)
+        for ep in sim.eps():
+            ep.popped = {}
+        sent = {'a': [], 'b': []}
+        meta = {'cfg_a': cfg_a, 'cfg_b': cfg_b, 'flavour': 'slow-handshake', 'term': [], 'hard': False, 'quiescent': False}
+        sim.start(sim.b)
+        sim.start(sim.a)
+        for _ in range(400):
+            if sim.a.h._state == 'established' and sim.b.h._state == 'established':
+                break
+            if sim.a.closed() or sim.b.closed():
+                break
+            # the network is slow: time passes before each internal event of the hand-shake
+            if rng.random() < 0.7:
+                sim.advance(rng.choice([500, 1000, 1500, 3000, 4000]))
+            due = [(ep, t) for ep in sim.eps() for t in sim.due_timers(ep)]
+            if due and rng.random() < 0.8:
+                ep, t = rng.choice(due)
+                sim.timer(ep, t)
+                continue
+            if not sim.step_random(rng):
+                break
+        for who in ('a', 'b'):
+            ep = sim.a if who == 'a' else sim.b
+            if not ep.closed() and ep.h._state == 'established' and rng.random() < 0.6:
+                d = sc.gen_bundle(rng, 10, big_ok=False)
+                sim.send(ep, d)
+                sent[who].append(d)
+        meta['quiescent'] = sim.run_quiescent(rng)
+        chk.case({'slow_handshake': True, 'cfg': [cfg_a, cfg_b], 'events': len(sim.log)})
+        chk.count('slow-handshake')
+        bad = tm.mon_c04(sim)
+        sc.report(chk, 'C04', bad, sim, sent, meta)
+        sims.append((sim, 'slow-handshake %d' % i))
+    sc.compare_with_model(chk, sims, with_timers=True)
     chk.assumptions += ['TLS disabled; the segment-size controller is off in these runs (C14 drives the clamp with arbitrary controller outputs)']
 
 
